@@ -7,6 +7,22 @@ from checklib import codec
 from checklib.model import run_model
 from checklib.shrink import shrink_list
 
+MANIFEST = dict(
+        technique="Coq refinement proof (induction over operation sequences) + extracted-model correspondence",
+        text=("Coq theorems (Props/C17.v): for every operation sequence, from every dictionary satisfying the representation invariant and both factory settings, "
+              "the method-by-method model of CaseInsensitiveOrderedDict yields the outputs and items() of a plain ordered dict keyed by str.lower-ed keys "
+              "(refinement by induction over the op list; lower-idempotence discharged by reflection over the generated Unicode table); invariants keys-lower/no-duplicates; "
+              "construction, missing-list-key, copy/deepcopy/pickle clauses. The model is tied to ordereddict.py by running the extracted model and the real class "
+              "on all op sequences up to length 2 (3 in thorough) over a 6-key mixed-case alphabet plus random histories, comparing every output and items() after every step. "
+              "Deepcopy aliasing is only exercised by the hunter (value-level model)."),
+        design_ref="DESIGN.md 7/C17",
+        note="C17: collections.OrderedDict and pickle/copy protocols are modelled (Lib/PyDict.v, Model/OrderedDict.v); U+03A3 final-sigma excluded from str.lower's model.")
+
+COMPONENTS = ["dicts"]          # extracted components this check runs (ocaml/<name>/driver)
+TARGETS = []                    # extra coq make targets besides Props/C17.vo
+RULE = ("all op sequences up to length 2 (3 in thorough, triples sampled at 12%) over 6 mixed-case keys x both factory settings x 2 initial dicts, "
+        "plus random histories of length < 40 over a wider alphabet incl. non-ASCII keys; non-trivial = at least two operations; distinct by repr of (factory, init, ops)")
+
 KEYS = ["a", "A", "b", "B", "layers", "LAYERS"]
 EXTRA_KEYS = ["Name", "NAME", "classes", "Classes", "Été", "éTÉ", "straße", "STRASSE",
               "İx", "i̇x", "Ω", "ω", "__type__", "__TYPE__", ""]
